@@ -55,13 +55,19 @@ Held(w) == /\ mpc \notin {"close_wait_files", "save_wait"}
 
 OneToken == abortCh + hurryCh = 1
 
+\* Main is inside a segment that has no hook in front of its next operation (the reads of Idle / Close before
+\* Save(), the return of lastFileClosed.Wait()): on the real code it goes on by itself as soon as it can, the
+\* driver cannot hold it back - so in the exported schedules nothing else moves while such a step is enabled
+Urgent == mpc \in {"idle_save", "close_save"} \/ (mpc = "save_wait" /\ lastFileClosed = 0)
+
 GStep ==
     \/ \E op \in Ops : /\ (nops = MaxOps - 1) <=> (op = "Close")
                        /\ M_Begin(op) /\ Log("M", 0, op, mpc', FALSE)
     \/ MainInternal /\ Log("M", 0, "", mpc', FALSE)
-    \/ \E s \in Savers : /\ spc[s] \in {"save_poll", "save_full"} => OneToken
+    \/ \E s \in Savers : /\ ~Urgent
+                         /\ spc[s] \in {"save_poll", "save_full"} => OneToken
                          /\ SaverNext(s) /\ Log("S", s, "", spc'[s], sabort'[s])
-    \/ \E w \in Savers : ~Held(w) /\ WriterNext(w) /\ Log("W", w, "", wpc'[w], FALSE)
+    \/ \E w \in Savers : ~Urgent /\ ~Held(w) /\ WriterNext(w) /\ Log("W", w, "", wpc'[w], FALSE)
 
 Bad == CASE Mode = "collide" -> ~TmpNamesDoNotCollide'
          [] Mode = "visible" -> ~VisibleSnapshotMatchesHeader'
